@@ -51,6 +51,25 @@ Theorem c03_abs_i32 : forall a, in32 a ->
   eval_template h_MathAbs_i32 [("a", TScal KInt, VI32 a)] t_MathAbs_i32 = Done (VI32 (abs_i32 a)).
 Proof. exact hlsl_MathAbs_i32_correct. Qed.
 
+(* float -> int through naga_f2i32 / naga_f2u32 (int(clamp(value, lo, hi)) as emitted): defined in HLSL and
+   equal to the WGSL value for every non-NaN operand below 2^31 (2^32) *)
+Theorem c03_naga_f2i32 : forall a, in32 a -> f2i32_defined a = true ->
+  eval_template h_As_i32_f32 [("a", TScal KFloat, VF32 a)] t_As_i32_f32 = Done (VI32 (i32_of_f32 a)).
+Proof. exact hlsl_As_i32_f32_correct. Qed.
+Theorem c03_naga_f2u32 : forall a, in32 a -> f2u32_defined a = true ->
+  eval_template h_As_u32_f32 [("a", TScal KFloat, VF32 a)] t_As_u32_f32 = Done (VU32 (u32_of_f32 a)).
+Proof. exact hlsl_As_u32_f32_correct. Qed.
+
+(* naga_extractBits / naga_insertBits from their emitted bodies *)
+Theorem c03_extract_bits_i32 : forall a b c, in32 a -> in32 b -> in32 c ->
+  eval_template h_MathExtractBits_i32 [("a", TScal KInt, VI32 a); ("b", TScal KUint, VU32 b); ("c", TScal KUint, VU32 c)] t_MathExtractBits_i32
+  = Done (VI32 (extract_bits_i32 a b c)).
+Proof. exact hlsl_MathExtractBits_i32_correct. Qed.
+Theorem c03_insert_bits_u32 : forall a b c d, in32 a -> in32 b -> in32 c -> in32 d ->
+  eval_template h_MathInsertBits_u32 [("a", TScal KUint, VU32 a); ("b", TScal KUint, VU32 b); ("c", TScal KUint, VU32 c); ("d", TScal KUint, VU32 d)] t_MathInsertBits_u32
+  = Done (VU32 (insert_bits a b c d)).
+Proof. exact hlsl_MathInsertBits_u32_correct. Qed.
+
 (* i32 + - * go through asuint ... asint *)
 Theorem c03_add_i32 : forall a b, in32 a -> in32 b ->
   eval_template h_Add_i32 [("a", TScal KInt, VI32 a); ("b", TScal KInt, VI32 b)] t_Add_i32 = Done (VI32 (add32 a b)).
@@ -106,6 +125,11 @@ Example c03_example_mod_by_zero :
   eval_template [] [("a", TScal KUint, VU32 7); ("b", TScal KUint, VU32 0)] (EBin BMod (EVar "a") (EVar "b"))
   = Fail "UB: integer remainder by zero".
 Proof. split; vm_compute; reflexivity. Qed.
+
+Example c03_example_f2i32_defined_is_satisfiable :
+  f2i32_defined 3212836864 = true /\ f2i32_defined 1325400063 = true /\ f2i32_defined 4286578688 = true /\
+  eval_template h_As_i32_f32 [("a", TScal KFloat, VF32 4286578688)] t_As_i32_f32 = Done (VI32 2147483648).   (* -inf -> INT_MIN *)
+Proof. repeat split; vm_compute; reflexivity. Qed.
 
 Example c03_example_shift_by_33 :
   eval_template h_ShiftLeft_u32 [("a", TScal KUint, VU32 1); ("b", TScal KUint, VU32 33)] t_ShiftLeft_u32 = Done (VU32 2).
